@@ -101,7 +101,7 @@ def main():
                      "kind_free_text": "Python driver + C harnesses: builds /repo's working tree in many configurations (production cmake build, compiler matrix, ASan/UBSan, MSan, TSan), runs hostile workloads under guard pages / sanitizers / valgrind / fault injection, judges with a reference model and trace monitors"}],
         "checks": checks,
         "not_applicable": na,
-        "notes": "All checks: exit 0 held / 1 VIOLATION / 2 inconclusive. VERIF_SEED selects random choices; enumerated parts do not depend on it. known_findings.json lists genuine defects: two, both repaired by fix: commits in /repo (972a5de for C17, b86dcde for C16); no open known finding.",
+        "notes": "All checks: exit 0 held / 1 VIOLATION / 2 inconclusive. VERIF_SEED selects random choices; enumerated parts do not depend on it. known_findings.json lists genuine defects: four, all repaired by fix: commits in /repo (972a5de C17, b86dcde C16, b01c296 C20, 763a886 C10); no open known finding.",
     }
     with open(os.path.join(V, "MANIFEST.json"), "w") as f:
         json.dump(m, f, indent=1)
